@@ -74,7 +74,7 @@ def cases(seed, tier):
         if r4.random() < 0.1:
             # the server sends SSH_MSG_IGNORE / SSH_MSG_DEBUG packets ahead of its group and reply messages (allowed at any time): same sizes
             prof['quiet_packets'] = b''.join(wire.frame(bytes([wire.MSG_IGNORE]) + wire.sstr('x' * r4.choice([0, 2, 90]))) if r4.random() < 0.6 else
-                                             wire.frame(bytes([wire.MSG_DEBUG, 0]) + wire.sstr('dbg') + wire.sstr('')) for _ in range(r4.randrange(1, 3))).hex()
+                                             wire.frame(bytes([wire.MSG_DEBUG, 0]) + wire.sstr('dbg') + wire.sstr('')) for _ in range(r4.choice([1, 2, 3, 6]))).hex()      # up to a hundred such packets over the probe sequence
         r3 = gen.case_rng(seed, ID, i, 'after')
         after = None
         if r3.random() < 0.12:
